@@ -1,6 +1,8 @@
 """C15 crash-injection child (run by harness/vp/props/c15.py with /venv/bin/python, never imported).
 
-usage: c15_child.py LOG_DIR SIDE_DIR K SCENARIO_JSON
+usage: c15_child.py SCENARIO_JSON PAR   < JSON list of jobs [[K, LOG_DIR, SIDE_DIR], ...] on stdin   > JSON list of exit codes
+The interpreter patches, imports deephyper ONCE and then forks one process per job (PAR at a time); every forked process
+runs the whole scenario in its own LOG_DIR and is killed at its own K.
 Patches builtins.open / io.open / os.rename / os.replace BEFORE importing deephyper, records every COMPLETED operation on
 LOG_DIR/results* (including the ones pandas' to_csv makes) as one JSON line in SIDE_DIR/ops.jsonl, and kills the process
 (os._exit, no buffer is flushed) right after operation number K (K = 0: never).  The run-function appends the uid of every
@@ -14,12 +16,13 @@ import os
 import sys
 import time
 
-LOGDIR, SIDE, K = os.path.abspath(sys.argv[1]), os.path.abspath(sys.argv[2]), int(sys.argv[3])
-SCEN = json.loads(sys.argv[4])
+SCEN = json.loads(sys.argv[1])
+PAR = int(sys.argv[2])
+LOGDIR, SIDE, K = None, None, 0          # set in the forked process
 
 _open = builtins.open
-_oplog = _open(os.path.join(SIDE, "ops.jsonl"), "a", buffering=1)
-_actlog = _open(os.path.join(SIDE, "actions.jsonl"), "a", buffering=1)
+_oplog = None
+_actlog = None
 _count = [0]
 
 
@@ -126,45 +129,88 @@ def _act(rec):
     _actlog.flush()
 
 
-problem = HpProblem()
-problem.add_hyperparameter((0.0, 10.0), "x")
+def run_scenario():
+    problem = HpProblem()
+    problem.add_hyperparameter((0.0, 10.0), "x")
 
-for si, sc in enumerate(SCEN["searches"]):
-    fails = sc.get("fails", [])
-    multi = sc.get("multi", False)
+    for si, sc in enumerate(SCEN["searches"]):
+        fails = sc.get("fails", [])
+        multi = sc.get("multi", False)
 
-    def make_run(si=si, fails=fails, multi=multi):
-        async def run(job):
-            j = int(str(job.id).split(".")[-1])
-            uid = si * 1000 + j
-            fail = fails[j % len(fails)] if fails else False
-            with _open(os.path.join(SIDE, "finished.txt"), "a") as f:
-                f.write("%d %d\n" % (uid, 1 if fail else 0))
-            if fail:
-                return "F_%d" % uid
-            return (float(uid), float((uid * 7) % 5)) if multi else float(uid)
-        return run
+        def make_run(si=si, fails=fails, multi=multi):
+            async def run(job):
+                j = int(str(job.id).split(".")[-1])
+                uid = si * 1000 + j
+                fail = fails[j % len(fails)] if fails else False
+                with _open(os.path.join(SIDE, "finished.txt"), "a") as f:
+                    f.write("%d %d\n" % (uid, 1 if fail else 0))
+                if fail:
+                    return "F_%d" % uid
+                return (float(uid), float((uid * 7) % 5)) if multi else float(uid)
+            return run
 
-    evaluator = Evaluator.create(make_run(), method="serial", method_kwargs={"num_workers": sc.get("workers", 1)})
-    orig = evaluator.dump_jobs_done_to_csv
+        evaluator = Evaluator.create(make_run(), method="serial", method_kwargs={"num_workers": sc.get("workers", 1)})
+        orig = evaluator.dump_jobs_done_to_csv
 
-    def dump(*a, _ev=evaluator, _orig=orig, _si=si, **k):
-        pre = [_si * 1000 + int(str(j.id).split(".")[-1]) for j in _ev.jobs_done]
-        flush = bool(k.get("flush", a[2] if len(a) > 2 else False))
-        _act(dict(act="dump", pre=pre, flush=flush, at=_count[0]))
-        try:
-            return _orig(*a, **k)
-        finally:
-            _act(dict(act="dumped", post=[_si * 1000 + int(str(j.id).split(".")[-1]) for j in _ev.jobs_done]))
+        def dump(*a, _ev=evaluator, _orig=orig, _si=si, **k):
+            pre = [_si * 1000 + int(str(j.id).split(".")[-1]) for j in _ev.jobs_done]
+            flush = bool(k.get("flush", a[2] if len(a) > 2 else False))
+            _act(dict(act="dump", pre=pre, flush=flush, at=_count[0]))
+            try:
+                return _orig(*a, **k)
+            finally:
+                _act(dict(act="dumped", post=[_si * 1000 + int(str(j.id).split(".")[-1]) for j in _ev.jobs_done]))
 
-    evaluator.dump_jobs_done_to_csv = dump
-    _act(dict(act="new", at=_count[0]))
-    search = RandomSearch(problem, evaluator, random_state=si + 1, log_dir=LOGDIR)
-    for n in sc["calls"]:
-        try:
-            search.search(max_evals=n)
-            _act(dict(act="end", at=_count[0]))
-        except Exception as e:
-            _act(dict(act="raised", exc=type(e).__name__, msg=str(e)[:200], at=_count[0]))
-            break
-_act(dict(act="exit"))
+        evaluator.dump_jobs_done_to_csv = dump
+        _act(dict(act="new", at=_count[0]))
+        search = RandomSearch(problem, evaluator, random_state=si + 1, log_dir=LOGDIR)
+        for n in sc["calls"]:
+            try:
+                search.search(max_evals=n)
+                _act(dict(act="end", at=_count[0]))
+            except Exception as e:
+                _act(dict(act="raised", exc=type(e).__name__, msg=str(e)[:200], at=_count[0]))
+                break
+    _act(dict(act="exit"))
+
+
+def run_job(k, log_dir, side):
+    """In the forked process: never returns."""
+    global LOGDIR, SIDE, K, _oplog, _actlog
+    LOGDIR, SIDE, K = os.path.abspath(log_dir), os.path.abspath(side), int(k)
+    try:
+        out = os.open(os.path.join(SIDE, "out.txt"), os.O_WRONLY | os.O_CREAT | os.O_APPEND)
+        os.dup2(out, 1)
+        os.dup2(out, 2)
+        _oplog = _open(os.path.join(SIDE, "ops.jsonl"), "a", buffering=1)
+        _actlog = _open(os.path.join(SIDE, "actions.jsonl"), "a", buffering=1)
+        run_scenario()
+        _oplog.flush()
+        _actlog.flush()
+        os._exit(0)
+    except BaseException:
+        import traceback
+
+        with _open(os.path.join(SIDE, "err.txt"), "w") as f:
+            f.write(traceback.format_exc())
+        os._exit(1)
+
+
+def main():
+    jobs = json.loads(sys.stdin.read())
+    codes = []
+    for i in range(0, len(jobs), PAR):
+        pids = []
+        for k, log_dir, side in jobs[i:i + PAR]:
+            pid = os.fork()
+            if pid == 0:
+                run_job(k, log_dir, side)
+            pids.append(pid)
+        for pid in pids:
+            _, status = os.waitpid(pid, 0)
+            codes.append(os.waitstatus_to_exitcode(status))
+    sys.stdout.write(json.dumps(codes))
+    sys.stdout.flush()
+
+
+main()
